@@ -44,11 +44,12 @@ CONSTANTS Lens,        \* body lengths L to explore
           MaxCuts,     \* at most this many cuts inside the body
           HdrCuts,     \* offsets (1..8) at which the 8 byte header may additionally be cut, {} = never
           Trail,       \* bytes of the following frame that arrive with the last piece
+          Modes,       \* subset of {"free", "bytewise"}: how the environment cuts (bytewise = one byte per delivery)
           EagerInit    \* TRUE: state Init accepts a prefix of a bare primitive (unchanged tree)
 
 HDR == 8
 
-VARIABLES L, V, kind,     \* the frame chosen in the initial state
+VARIABLES L, V, kind, mode, \* the frame and the environment chosen in the initial state
           delivered,      \* stream bytes handed to the buffer so far
           consumed,       \* stream bytes the decoder has advanced past (buffer = delivered - consumed)
           st, remaining,  \* WithLenRecognizerDecoderState
@@ -60,7 +61,7 @@ VARIABLES L, V, kind,     \* the frame chosen in the initial state
           hcut,           \* header cut used (0 = none)
           lastAct
 
-vars == <<L, V, kind, delivered, consumed, st, remaining, held, result, results, turn, cuts, hcut, lastAct>>
+vars == <<L, V, kind, mode, delivered, consumed, st, remaining, held, result, results, turn, cuts, hcut, lastAct>>
 
 Total == HDR + L
 Min(a, b) == IF a < b THEN a ELSE b
@@ -68,6 +69,7 @@ Min(a, b) == IF a < b THEN a ELSE b
 Init == /\ L \in Lens
         /\ \E b \in Blanks : b <= L /\ V = L - b
         /\ kind \in Kinds
+        /\ mode \in Modes
         /\ delivered = 0 /\ consumed = 0
         /\ st = "Header" /\ remaining = 0 /\ held = "none" /\ result = "none" /\ results = 0
         /\ turn = "deliver" /\ cuts = <<>> /\ hcut = 0
@@ -84,14 +86,20 @@ Arrive(to, upto) ==
     /\ hcut' = IF to <= HDR /\ to < Total THEN to ELSE hcut
     /\ turn' = "decode"
     /\ lastAct' = [k |-> "deliver", to |-> to]
-    /\ UNCHANGED <<L, V, kind, consumed, st, remaining, held, result, results>>
+    /\ UNCHANGED <<L, V, kind, mode, consumed, st, remaining, held, result, results>>
 
 \* one cut inside (or right after) the 8 byte length prefix
-DeliverHeaderCut == \E to \in HdrCuts : to <= HDR /\ to < Total /\ hcut = 0 /\ delivered = 0 /\ Arrive(to, to)
+DeliverHeaderCut == \E to \in HdrCuts : /\ mode = "free" /\ to <= HDR /\ to < Total /\ hcut = 0 /\ delivered = 0
+                                        /\ Arrive(to, to)
 \* a cut inside the body
-DeliverBodyCut   == \E to \in (HDR + 1)..(HDR + L) : to < Total /\ Len(cuts) < MaxCuts /\ Arrive(to, to)
+DeliverBodyCut   == \E to \in (HDR + 1)..(HDR + L) : /\ mode = "free" /\ to < Total /\ Len(cuts) < MaxCuts
+                                                     /\ Arrive(to, to)
+\* one byte at a time (after the header): every possible cut at once
+DeliverByte      == /\ mode = "bytewise" /\ turn = "deliver" /\ delivered + 1 < Total
+                    /\ Arrive(IF delivered < HDR THEN HDR ELSE delivered + 1, IF delivered < HDR THEN HDR ELSE delivered + 1)
 \* the rest of the frame, together with the first bytes of the next frame
-DeliverRest      == turn = "deliver" /\ Arrive(Total, Total + Trail)
+DeliverRest      == /\ turn = "deliver" /\ (mode = "bytewise" => (delivered + 1 >= Total \/ Total <= HDR))
+                    /\ Arrive(Total, Total + Trail)
 
 (***************************************************************************)
 (* The inner decoder on a window of `w` bytes that starts at body offset   *)
@@ -142,9 +150,9 @@ Decode ==
        /\ results' = IF r.out # "none" THEN results + 1 ELSE results
        /\ turn' = IF r.out # "none" \/ delivered >= Total THEN "done" ELSE "deliver"
        /\ lastAct' = [k |-> "decode", out |-> r.out, consumed |-> r.consumed - consumed]
-    /\ UNCHANGED <<L, V, kind, delivered, cuts, hcut>>
+    /\ UNCHANGED <<L, V, kind, mode, delivered, cuts, hcut>>
 
-Next == DeliverHeaderCut \/ DeliverBodyCut \/ DeliverRest \/ Decode
+Next == DeliverHeaderCut \/ DeliverBodyCut \/ DeliverByte \/ DeliverRest \/ Decode
 Spec == Init /\ [][Next]_vars
 
 (***************************************************************************)
